@@ -663,25 +663,54 @@ def random_history(cfg, text0, pos0, events):
     return True, None
 
 
+PREF_RANDOM_KEYS = ["up"] * 4 + ["down"] * 4 + ["home", "end", "delete", "delete", "delete", "backspace", "backspace", "a", "中", "left", "right", "enter", "tab", "f1"]
+
+
+def _ragged_text(r):
+    """2..4 lines of unequal random lengths (0..6) over {a, b, space, 中}"""
+    lines = []
+    for _ in range(r.randint(2, 4)):
+        n = r.choice([0, 1, 1, 2, 3, 4, 6])
+        lines.append("".join(r.choice(["a", "a", "a", "b", " ", "中"]) for _ in range(n)))
+    return "\n".join(lines)
+
+
 def random_task(args):
-    cfgs, seed, chunk, count, length, maxlen = args
-    r = rng(seed * 1000 + chunk)
+    """Three families, each with a random stream of its own (so that widening one does not reshuffle the
+    others): 'generic' (any configuration, short random text, all keys), 'pref' (preferred-column stress:
+    ragged text, mostly vertical moves and deletions), 'foreign' (numeric widgets, keys inside and outside
+    the alphabet half and half)."""
+    cfgs, seed, chunk, count, length, maxlen, pcfgs, pcount, ncfgs, ncount = args
+    streams = {"generic": rng(seed * 1000 + chunk), "pref": rng(seed * 1000 + chunk + 500_000), "foreign": rng(seed * 1000 + chunk + 700_000)}
     tally = Tally()
     cpu0 = time.process_time()
     with _Utf8():
-        for k in range(count):
-            cfg = cfgs[r.randrange(len(cfgs))]
-            if cfg["kind"] == "edit":
-                alpha = ["a", "b", " ", "\n", "中", "́"]
-                text0 = "".join(r.choice(alpha) for _ in range(r.randint(0, maxlen)))
+        for family in ["generic"] * count + ["pref"] * pcount + ["foreign"] * ncount:
+            r = streams[family]
+            stress = family == "pref"
+            if stress:
+                cfg = pcfgs[r.randrange(len(pcfgs))]
+                text0 = _ragged_text(r)
                 pos0 = r.randint(0, len(text0))
-                keys = PRINT_KEYS + NAV_KEYS + NAV_KEYS + UNUSED_KEYS
-            else:
+                keys = PREF_RANDOM_KEYS
+            elif family == "foreign":
+                cfg = ncfgs[r.randrange(len(ncfgs))]
                 text0, pos0 = "", 0
-                keys = NUM_KEYS + NUM_KEYS + numeric_keys(cfg)
+                outside = [k for k in numeric_keys(cfg) if k not in NUM_KEYS]
+                keys = NUM_KEYS * (1 + len(outside) // len(NUM_KEYS)) + outside
+            else:
+                cfg = cfgs[r.randrange(len(cfgs))]
+                if cfg["kind"] == "edit":
+                    alpha = ["a", "b", " ", "\n", "中", "́"]
+                    text0 = "".join(r.choice(alpha) for _ in range(r.randint(0, maxlen)))
+                    pos0 = r.randint(0, len(text0))
+                    keys = PRINT_KEYS + NAV_KEYS + NAV_KEYS + UNUSED_KEYS
+                else:
+                    text0, pos0 = "", 0
+                    keys = NUM_KEYS
             events = []
-            for _ in range(length):
-                if r.random() < 0.15:
+            for _ in range(length + 2 if stress else length):
+                if r.random() < (0.08 if stress else 0.15):
                     events.append(("click", r.randrange(cfg["W"]), r.randrange(4)))
                 else:
                     events.append(r.choice(keys))
@@ -825,6 +854,53 @@ def text_sets(tier):
     return list(dict.fromkeys(core)), list(dict.fromkeys(other))
 
 
+# ---- preferred-column histories ------------------------------------------------------------------
+# "move one display row keeping the preferred column": the column is kept across consecutive up/down moves
+# only; every other operation (insert, delete, backspace, left, right, enter, tab, home/end, a click) ends the
+# chain, the next up/down starts from the cell the cursor is really drawn in.  A remembered column that
+# outlives such an operation shows only when (1) it differs from the cursor's real column -- the cursor went
+# through a row shorter than the column, or home/end/a click on a blank cell set it -- and (2) the row moved to
+# afterwards tells the two columns apart.  Hence ragged texts (rows of different lengths: short or empty row
+# between longer ones, staircase, wide characters, rows made by wrapping, a clipped row longer than the
+# widget) and every alignment (right/centre: 'home' is not column 0); all keys at every state that carries a
+# preferred column, and an up/down probe on the same widget after every key that must forget it.
+PREF_FULL_KEYS = ["up", "down", "home", "end", "left", "right", "a", "delete", "backspace", "enter", "tab", "f1"]
+RAGGED_TEXTS = [
+    "aaa\na\naaa",  # short row between two longer ones
+    "aaa\n\naa",  # empty row in the middle
+    "a\naaaa\naa",  # long row in the middle
+    "aaaa\naa\na\naaa",  # staircase
+    "a中a\na\n中中",  # columns inside wide characters
+    "aaaa a aaa",  # rows made by wrapping (wrap space: aaaa / a / aaa at width 4)
+    "aaaaaa\na\naaa",  # a row longer than the widget (wrapped, or clipped with the view shifted)
+    # thorough tier only:
+    "aa\naaa\n\naaaa\na",
+    "中a\n\na中a\na",
+    "aa aaaa a\naaa",
+    "a\n\n\naaa",
+    "aaa\na\naaa\na\naaa",
+]
+
+
+def pref_configs(tier):
+    quick = tier == "quick"
+    cfgs = []
+    for W in (4,) if quick else (3, 4, 5):
+        for wrap in ("space", "any", "clip"):
+            for align in ("left", "right", "center"):
+                cfgs.append(edit_cfg("", W, wrap, align, multiline=True))
+    cfgs.append(edit_cfg("", 3, "any", "left", multiline=True))
+    cfgs.append(edit_cfg("", 3, "space", "right", multiline=True))
+    cfgs.append(edit_cfg("a", 4, "space", "right", multiline=True, allow_tab=True))
+    cfgs.append(edit_cfg("", 4, "any", "left", multiline=True, unit="bytes"))
+    cfgs.append(edit_cfg("", 5, "clip", "center", multiline=True, mask="*"))
+    return list({repr(c): c for c in cfgs}.values())
+
+
+def pref_texts(tier):
+    return RAGGED_TEXTS[:7] if tier == "quick" else RAGGED_TEXTS
+
+
 def is_core(cfg):
     return cfg["caption"] == "" and cfg["unit"] == "str" and cfg["mask"] is None and not cfg["allow_tab"]
 
@@ -834,7 +910,9 @@ def tasks_for(tier):
     core_texts, other_texts = text_sets(tier)
     tasks = []
     for cfg in numeric_configs(tier):
-        tasks.append({"cfg": cfg, "inits": [("", 0)], "depth": 4 if quick else 5, "expand_len": 3 if quick else 4, "click_depth": 2})
+        # (base > 16: 'a' and 'g' are both digits, the state space is larger -- texts one shorter in the quick tier)
+        big = cfg.get("base", 10) > 16
+        tasks.append({"cfg": cfg, "inits": [("", 0)], "depth": 4 if quick else 5, "expand_len": (2 if big else 3) if quick else 4, "click_depth": 2})
     per_task = 80 if quick else 400
     for ci, cfg in enumerate(configs(tier)):
         texts = core_texts if is_core(cfg) else other_texts
@@ -847,7 +925,15 @@ def tasks_for(tier):
             inits = [x for k, x in enumerate(inits) if (k + ci) % 2 == 0]
         for i in range(0, len(inits), per_task):
             depth = 2 if quick else 4
-            tasks.append({"cfg": cfg, "inits": inits[i : i + per_task], "depth": depth, "expand_len": 8, "click_depth": 1 if (not quick and is_core(cfg)) else 0, "pref_keys": ["up", "down", "a"] if quick else PREF_KEYS})
+            tasks.append({"cfg": cfg, "inits": inits[i : i + per_task], "depth": depth, "expand_len": 8, "click_depth": 1 if (not quick and is_core(cfg)) else 0, "pref_keys": ["up", "down", "a", "delete"] if quick else PREF_KEYS})
+    # preferred-column histories: ragged texts x every cursor, every key at every state with a preferred column
+    for cfg in pref_configs(tier):
+        inits = [(t, p) for t in pref_texts(tier) for p in range(len(t) + 1)]
+        # quick tier: event sequences of length 3 (mover, key, up/down probe) everywhere, of length 4 for one
+        # configuration per wrap mode (width 4; left, right and centre once each)
+        deep = (cfg["W"], cfg["wrap"], cfg["align"], cfg["caption"], cfg["unit"]) in ((4, "any", "left", "", "str"), (4, "space", "right", "", "str"), (4, "clip", "center", "", "str"))
+        for i in range(0, len(inits), 40):
+            tasks.append({"cfg": cfg, "inits": inits[i : i + 40], "depth": (3 if deep else 2) if quick else 4, "expand_len": 20, "click_depth": 0, "pref_keys": PREF_FULL_KEYS, "family": "pref"})
     return tasks
 
 
@@ -937,14 +1023,19 @@ def run(tier="quick", seed=0):
 
     # random histories
     t2 = time.time()
-    allcfgs = configs(tier) + numeric_configs(tier)
+    # (the generic family keeps the configuration list it has always drawn from; the numeric configurations added
+    # later -- base > 16 -- are drawn by the 'foreign' family)
+    numcfgs = numeric_configs(tier)
+    allcfgs = configs(tier) + [c for c in numcfgs if c.get("base", 10) <= 16]
     nchunks = procs * 2
     count = 150 if tier == "quick" else 2500
     length = 8 if tier == "quick" else 10
     rtotal = Tally()
-    for t in _pool_map(random_task, [(allcfgs, seed, i, count, length, 6) for i in range(nchunks)], procs):
+    pcount = 60 if tier == "quick" else 1500
+    ncount = 40 if tier == "quick" else 800
+    for t in _pool_map(random_task, [(allcfgs, seed, i, count, length, 6, pref_configs(tier), pcount, numcfgs, ncount) for i in range(nchunks)], procs):
         _merge(rtotal, t)
-    checks.append(_result(f"{ID}/random-histories", RULES["random-histories"], f"{nchunks * count} seeded sequences of {length} events, random configuration from the same set, initial text <= 6 over {{a, b, space, newline, 中, U+0301}}", False, rtotal, "random-histories", t2))
+    checks.append(_result(f"{ID}/random-histories", RULES["random-histories"], f"{nchunks * count} seeded sequences of {length} events, random configuration from the same set, initial text <= 6 over {{a, b, space, newline, 中, U+0301}}; plus {nchunks * pcount} preferred-column stress sequences of {length + 2} events (ragged initial text of 2..4 lines of length 0..6 over {{a, b, space, 中}}, {len(pref_configs(tier))} configurations, 40% up/down, 25% delete/backspace, home/end/insert/left/right/enter/tab/clicks); plus {nchunks * ncount} sequences of {length} events on the {len(numcfgs)} numeric configurations with keys inside and outside the alphabet half and half", False, rtotal, "random-histories", t2))
     return {"checks": checks, "bound": bound}
 
 
